@@ -843,7 +843,8 @@ pub fn run_c02(a: &Args, shared: &SharedReport) {
                 for st in strategies {
                     let b = [None, Some(1), Some(2), Some(3)][(i + k as usize) % 4];
                     run.case(&m, &orc, &Config { block: b, ..Config::plain(st.clone()) }, None);
-                    if th && (i + m2 as usize) % 8 == 0 {
+                    if (th && (i + m2 as usize) % 8 == 0) || (!th && (i + k as usize) % 6 == 0) {
+                        // free-running samples with more workers than initial states (their schedules are E2's)
                         for t in [2usize, 3] {
                             run.case(&m, &orc, &Config { threads: t, block: Some(1), ..Config::plain(st.clone()) }, None);
                         }
